@@ -241,7 +241,49 @@ def cases(tier, r):
   for n in range(4 if tier == 'quick' else 30):
     yield 'inline', {'seed': n, 'transform': 'inline'}
     yield 'inline', {'seed': n, 'transform': 'inline', 'partial': True}
+    yield 'tagged_odd', {'seed': n, 'transform': 'tagged_odd'}
     yield 'dataclasses', {'seed': n, 'transform': 'dataclasses'}
+
+
+class ArrayLike:
+  class _NoTruth:
+    def __bool__(self):
+      raise ValueError('truth value of an elementwise comparison is ambiguous')
+
+  def __eq__(self, other):
+    return self is other or ArrayLike._NoTruth()
+
+  def __ne__(self, other):
+    if isinstance(other, tuple) and other == ():
+      return True             # (numpy: shapes do not broadcast, the comparison is plainly True)
+    return False if self is other else ArrayLike._NoTruth()
+
+  __hash__ = object.__hash__
+
+  def __repr__(self):
+    return 'ARRAY_LIKE'
+
+  def __deepcopy__(self, memo):
+    return self
+
+
+class AlwaysEqual:
+  def __eq__(self, other):
+    return True
+
+  def __ne__(self, other):
+    return False
+
+  __hash__ = object.__hash__
+
+  def __repr__(self):
+    return 'ALWAYS_EQUAL'
+
+  def __deepcopy__(self, memo):
+    return self
+
+
+ARRAY_LIKE, ALWAYS_EQUAL = ArrayLike(), AlwaysEqual()
 
 
 def make_root(case):
@@ -327,6 +369,28 @@ def execute(case):
     real, _cfg = argstore.run_real(case)
     real['transform'] = name
     return real, {k: case[k] for k in ('p', 'sig', 'args', 'kwargs', 'ops')}
+  if name == 'tagged_odd':
+    # materialize_tags over stand-alone TaggedValues whose value compares oddly (array-like: ==
+    # has no truth value; or equal to everything): "is it filled?" is a question of identity
+    from fiddle._src import tagging
+    problems = []
+    for v in (ARRAY_LIKE, ALWAYS_EQUAL):
+      for kw in ({}, {'tags': {targets.T0}}, {'clear_field_tags': True}, {'tags': {targets.T2}}):
+        cfg = fdl.Config(graphs.node_fn(1, 0), p=[targets.T0.new(v)],
+                         q={'k': fdl.TaggedValue(tags=[targets.T0, targets.T1], default=v)})
+        try:
+          t = tagging.materialize_tags(cfg, **kw)
+          rec = targets.rec_of(fdl.build(t))
+          slots = dict(rec.slots)
+          if not (slots['p'][0] is v and slots['q']['k'] is v):
+            problems.append([repr(v), sorted(map(str, kw)), 'built value differs'])
+          want_plain = kw.get('tags') != {targets.T2}
+          if want_plain and (isinstance(t.p[0], fdl.Buildable) or isinstance(t.q['k'], fdl.Buildable)):
+            problems.append([repr(v), sorted(map(str, kw)), 'a filled TaggedValue with a selected tag was not materialized'])
+        except Exception as e:
+          problems.append([repr(v), sorted(map(str, kw)), f'raised {type(e).__name__}: {e}'[:120]])
+    obs['problems'] = problems
+    return obs, None
   if name == 'inline':
     top = outer_partial if case.get('partial') else outer
     cfg = top.as_buildable(case['seed'])
@@ -436,6 +500,11 @@ def oracle(case, real):
     return flat_oracle(case, real)
   if 'raised' in real:
     return {'what': f'{name} raised', 'raised': real['raised']}
+  if name == 'tagged_odd':
+    if real['problems']:
+      return {'what': 'materialize_tags on a TaggedValue whose value compares oddly', 'class': 'materialize-tags-eq',
+              'problems': real['problems'][:4]}
+    return None
   if name == 'inline':
     if real['before'] != real['after'] or not real['direct_equal'] or real['still_autoconfig']:
       return {'what': 'auto_config.inline changed what is built (or did not inline)', 'observed': real}
